@@ -143,7 +143,12 @@ func verifFP8Encode(prefix string, bits uint32, enc func(float32) uint8, dec fun
 	if mag < maxFinite {
 		hi := math.Abs(float64(tab[mag+1]))
 		mid := (rv + hi) / 2
-		vrt.Assert(a <= mid, prefix+"-nearest-from-above")
+		if mag&(1<<mantBits-1) == 1<<mantBits-1 {
+			// known finding: a mantissa that rounds up past its maximum is clamped instead of carried into the exponent
+			vrt.Assert(a <= mid, prefix+"-nearest-from-above-at-mantissa-max")
+		} else {
+			vrt.Assert(a <= mid, prefix+"-nearest-from-above")
+		}
 		if a == mid {
 			vrt.Assert(mag&1 == 0, prefix+"-tie-to-even-above")
 		}
